@@ -74,7 +74,13 @@ def r3(cx, chk, cfg, F, f):
     ok = True
     for f_, p, w in ntrun.walk(cx, cfg, only=lambda g: g["path"] == f["path"]):
         npaths += 1
-        swaps = [e for e in p.events if e["ev"] == "swap" and (e["va"] == VP or e["vb"] == VP)]
+        # exchanges of the caller's value with a memory slot: mem::swap / ptr::swap in either argument order, or mem::replace(slot, v)
+        swaps = []
+        for e in p.events:
+            if e["ev"] == "swap" and (e["va"] == VP or e["vb"] == VP):
+                swaps.append(e)
+            elif e["ev"] == "replace" and e.get("new") == VP:
+                swaps.append({"ev": "swap", "a": ("L", -1, -1, ()), "b": e["loc"], "va": VP, "vb": e["old"], "ln": e.get("ln"), "fn": e.get("fn")})
         var, flds = ret_variant(p.ret)
         if var is None:
             chk.undecide("C02.R3", f["q"], "return value is not a PutResult aggregate: %s" % fmt_val(p.ret)[:80])
@@ -112,9 +118,7 @@ def r3(cx, chk, cfg, F, f):
                 bad("node-not-resident", "the node that received the new value is not linked+indexed at exit (%s)" % (st.short() if st else "untracked"))
             elif hits and n not in [h[3] for h in hits] and not evictee_of_ghost(w, n):
                 bad("wrong-node", "the new value was written into node %s which is not the node found for the key" % fmt_val(n))
-        else:
-            if swaps:
-                bad("swap-no-update", "a path of %s exchanges the caller's value but returns %s" % (f["q"], var))
+        # (a path that does not hit may store the caller's value into a recycled node: that is the insertion, not an update)
     if ok:
         chk.ob("C02.R3", "%s:%s" % (cfg, f["q"]), "%d paths, %d hit paths, each hit swaps once and returns the swapped-out value" % (npaths, nhit),
                {"fn": f["q"], "paths": npaths, "hit_paths": nhit})
